@@ -283,6 +283,9 @@ package core
 //@   ensures[C05] result1 != nil && typeis(result1, "*mtypes.ConditionalCheckFailedException") && input.ReturnValuesOnConditionCheckFailure != nil && *input.ReturnValuesOnConditionCheckFailure == "ALL_OLD" &&
 //@                old(KeyOf(t, input.Key)) in old(dom(t.Data)) ==>
 //@                content(result1.(*mtypes.ConditionalCheckFailedException).Item) == old(content(t.Data[KeyOf(t, input.Key)]))
+//@   ensures[C05] result1 != nil && typeis(result1, "*mtypes.ConditionalCheckFailedException") && input.ReturnValuesOnConditionCheckFailure != nil && *input.ReturnValuesOnConditionCheckFailure == "ALL_OLD" &&
+//@                !(old(KeyOf(t, input.Key)) in old(dom(t.Data))) ==>
+//@                len(result1.(*mtypes.ConditionalCheckFailedException).Item) == 0
 //@   aborts[C08] Unchanged(t)
 //@   loop 1:
 //@     invariant TInv0(t) && IOwn(t) && content(t.AttributesDef) == old(content(t.AttributesDef))
